@@ -104,7 +104,7 @@ def gen_diff(ctx):
     for op in ("neg", "dbl", "tri", "sqr", "inv"):
         for pt in pats12:
             add("fp12 %s %s" % (op, elem(r, pt)), "fp12:%s:%s" % (op, "a2=0" if a2zero(pt) else "a2!=0"))
-    # inversion after negation / conjugation: a2 = 0 becomes the non-canonical zero (p,..,p)
+    # inversion after negation / conjugation: a2 = 0 must stay recognisable (before c2dbe37 it became (p,..,p))
     for pt in pats12:
         key = "fp12:inv:noncanonical-zero" if a2zero(pt) else "fp12:invneg:a2!=0"
         add("fp12 invneg %s" % elem(r, pt), key)
@@ -146,7 +146,7 @@ def gen_diff(ctx):
     n1 = N - 1
     for z in [0, 1, n1 - 1, n1 + 2**193, 2 * n1 - 1, 2**320 - 1, 2**256, 2**256 - 1, (2**320 // n1) * n1 - 1, 7 * n1 + 2**192 + 2**64]:
         add("fromhash " + h80(z), "fromhash:edge")
-    # residues below 2^192: the quotient estimate is one short and there is no correction step
+    # residues below 2^192: the quotient estimate is one short; needs the correction step (3d68e44)
     for z in [n1, n1 + 1, 3 * n1 + 5, 2**63 * n1 + 2**100, (2**320 // n1) * n1, 12345 * n1 + 2**191]:
         add("fromhash " + h80(z), "fromhash:tiny-residue")
     for i in range(300 if not thorough else 5000):
@@ -202,7 +202,7 @@ def run_diff(ctx, cases, impl_exe, model_exe):
                 ctx.sample({"op": line[:200], "result": a[:130]})
             continue
         if implmodel is not None and a == implmodel and line.startswith("fp "):
-            # raw Fp representative p for the value 0 (sm9_z256_modp_neg(0), modp_sub(p,0)): congruent, not canonical
+            # raw Fp representative p for the value 0 (only modp_sub(p,0) / add on the input p itself): congruent, not canonical
             ctx.cell(cell + ":noncanonical")
             continue
         if implmodel is not None and a == implmodel:
@@ -476,7 +476,7 @@ def replay(path):
 
 def finish(ctx):
     ctx.assumptions = [
-        "theorems: Impl = Spec (mod p, componentwise) for every add/sub/neg/dbl/tri/haf/mul/sqr/mul_u/mul_v/line-mul/pow of Fp, Fp2, Fp4, Fp12; inverses correct when the inverted norm is a unit (premise: Fermat's little theorem for p, i.e. p prime); hash-to-range equals (Ha mod (N-1))+1 for every 320-bit Ha whose residue is >= 2^192+2^64; scheme correctness (verify(sign), decrypt(encrypt), exchange agreement) over an ABSTRACT pairing with group laws, bilinearity and order N as premises",
+        "theorems: Impl = Spec (mod p, componentwise) for every add/sub/neg/dbl/tri/haf/mul/sqr/mul_u/mul_v/line-mul/pow of Fp, Fp2, Fp4, Fp12; inverses correct when the inverted norm is a unit (premise: Fermat's little theorem for p, i.e. p prime); hash-to-range equals (Ha mod (N-1))+1 for every 320-bit Ha; inversion after negation correct (a2 = 0 branch); scheme correctness (verify(sign), decrypt(encrypt), exchange agreement) over an ABSTRACT pairing with group laws, bilinearity and order N as premises",
         "NOT proved: that sm9_z256_pairing (Miller loop + final exponentiation) is a bilinear non-degenerate map of order N; that the Frobenius maps equal x -> x^(p^j); the G1/G2 point formulas; modn_mul/modn_inv (Barrett) — these are tested: algebraic laws on the implementation, one known answer of GM/T 0044.5 annex A, Python integer reference for the groups",
         "field elements are compared with the Montgomery factor removed (the harness converts with the library's own from_bytes/to_bytes); Fp-level ops are compared on raw representatives including the non-canonical zero p",
         "scheme tests use scripted entropy (harness/entropy.h); rejection of wrong identity/message/altered bytes is a test on sampled positions (cryptographic clause, not a theorem)",
